@@ -17,6 +17,9 @@ CASES = [
     ('parseAnnotations.accepts_shots_n', '@shots(2)\nfunction main() -> void { @tracked qubit q; measure q; }\n', True),
     ('parseAnnotations.accepts_tracked', 'function main() -> void { @tracked qubit q; measure q; echo(1); }\n', True),
     ('parseAnnotations.accepts_tracked', 'class H { @tracked public qubit q; public constructor() -> H = default; }\nfunction main() -> void { H h = new H(); echo(1); }\n', True),
+    ('isTypeAhead.name_followed_by_name_is_a_declaration', 'class P { public int v; public constructor(int v) -> P { this.v = v; return this; } }\nfunction main() -> void { P p = new P(3); echo(p.v); }\n', True),
+    ('isTypeAhead.only_type_keywords_and_identifiers_can_start_one', 'function main() -> void { int[] a = {1, 2}; a[0] = 5; echo(a[0]); int i = 0; i = i + 1; echo(i); }\n', True),
+    ('isTypeAhead.skipTypeArgs.moves_only_onto_a_closing_angle', 'class Box<T> { public T v; public constructor(T v) -> Box<T> { this.v = v; return this; } }\nfunction main() -> void { Box<int> b = new Box<int>(4); int x = 1; boolean c = x < 2; echo(b.v); echo(c); }\n', True),
     ('parseAnnotations.unknown_annotation_is_rejected', 'function main() -> void { @bogus qubit q; }\n', False),
     ('parseAnnotations.unknown_annotation_is_rejected', '@bogus\nfunction main() -> void { }\n', False),
     ('parseAnnotations.unknown_annotation_is_rejected', K % '@bogus public function f() -> void { }' + 'function main() -> void { }\n', False),
